@@ -43,12 +43,20 @@ fn sessions_of(specs: Vec<(&str, &str, &str)>, seed: u64) -> Vec<Session> {
                 typed_user: &u.to_ascii_lowercase(),
                 typed_pass: &p.to_ascii_uppercase(),
                 salt: refmodel::ctr_array::<32>(seed, &format!("c05-salt-{tag}")),
-                b: refmodel::ctr_array::<32>(seed, &format!("c05-b-{tag}")),
-                a: refmodel::ctr_array::<32>(seed, &format!("c05-a-{tag}")),
+                b: ordinary_key(seed, &format!("c05-b-{tag}")),
+                a: ordinary_key(seed, &format!("c05-a-{tag}")),
                 storage_roundtrip: false,
             };
             match real_login(&inp) {
                 Ok((rl, server, client)) => Session { name: tag.to_string(), user_norm: refmodel::misc::normalize(u).unwrap(), k: rl.k_server, server, client },
+                Err(LoginFail::Redrawn) => {
+                    // the library refuses one of these scripted values and draws again: take the session it builds from its own draws
+                    let inp2 = LoginInput { b: ordinary_key(seed, &format!("c05-b2-{tag}")), a: ordinary_key(seed, &format!("c05-a2-{tag}")), salt: refmodel::ctr_array::<32>(seed, &format!("c05-salt2-{tag}")), ..inp };
+                    match real_login(&inp2) {
+                        Ok((rl, server, client)) => Session { name: tag.to_string(), user_norm: refmodel::misc::normalize(u).unwrap(), k: rl.k_server, server, client },
+                        Err(e) => mc::util::machinery_error(&format!("C05: cannot set up a logged-in session ({e:?}); see C01")),
+                    }
+                }
                 Err(e) => mc::util::machinery_error(&format!("C05: cannot set up a logged-in session ({e:?}); see C01")),
             }
         })
